@@ -20,14 +20,14 @@ Section Thms.
 Variable nearest : pt -> list pt -> nat.
 Hypothesis Hn : nearest_spec nearest.
 
-(** totality outside the finding class: every underground target block gets an existing underground
-    source block; every atmosphere target block an atmosphere source block when the source has any *)
-Lemma block_mapping_total_l self geo : wf self -> wf geo -> ~ atm_class self geo ->
+(** totality, all nine atmosphere arrangements: every underground target block gets an existing
+    underground source block; every atmosphere target block an atmosphere source block when the source has any *)
+Lemma block_mapping_total_l self geo : wf self -> wf geo ->
   exists m cm, block_mapping nearest self geo = Ok (m, cm) /\ map fst m = block_name_list geo /\
     (forall b, In b (ug_blocks geo) -> exists sb, dget b m = Ok sb /\ In sb (ug_blocks self)) /\
     (gatm self <> Atm2 -> forall b, In b (atm_blocks geo) -> exists sb, dget b m = Ok sb /\ In sb (atm_blocks self)).
 Proof.
-  intros W W' NC. destruct (block_mapping_ok nearest Hn self geo W W' NC) as [m Hm].
+  intros W W'. destruct (block_mapping_ok nearest Hn self geo W W') as [m Hm].
   exists m, (CM nearest self geo). split; [exact Hm|].
   destruct (block_mapping_inv nearest Hn self geo m _ W W' Hm) as [_ [F G]]. split; [exact F|]. split.
   - intros b Ib. destruct (G b) as [v [Hv Dv]]; [rewrite (block_name_list_eq geo W'); apply in_or_app; right; exact Ib|].
@@ -40,25 +40,13 @@ Proof.
   - intros NA b Ib. destruct (G b) as [v [Hv Dv]]; [rewrite (block_name_list_eq geo W'); apply in_or_app; left; exact Ib|].
     exists v. split; [exact Dv|]. unfold atm_blocks in Ib. destruct (gatm geo) eqn:Eg.
     + destruct Ib as [E|[]]. subst b. rewrite (map_block_atm0 nearest self geo W W' Eg) in Hv.
-      destruct (gatm self) eqn:Es; try discriminate. inversion Hv; subst v. unfold atm_blocks. rewrite Es. left; reflexivity.
-    + apply in_map_iff in Ib as [c [E Ic]]. subst b. rewrite (map_block_atm1 nearest self geo c W W' Ic) in Hv.
+      inversion Hv; subst v. unfold atm_blocks. destruct (gatm self) eqn:Es; [left; reflexivity| |congruence].
+      apply in_map_iff. exists (first_col self). split; [reflexivity|apply first_col_in; exact W].
+    + apply in_map_iff in Ib as [c [E Ic]]. subst b. rewrite (map_block_atm1 nearest self geo c W W' Ic Eg) in Hv.
       inversion Hv; subst v. unfold atm_blocks. destruct (gatm self) eqn:Es; [left; reflexivity| |congruence].
       apply in_map_iff. exists (near_col nearest self c). split; [reflexivity|].
       apply (closest_col_ok nearest Hn self c (cols_ne self W)).
     + destruct Ib.
-Qed.
-
-(** all nine atmosphere arrangements: the call succeeds exactly outside the finding class *)
-Lemma block_mapping_atm_cases_l self geo : wf self -> wf geo ->
-  match gatm geo, gatm self with
-  | Atm0, Atm1 | Atm0, Atm2 => block_mapping nearest self geo = Raise KeyError
-  | _, _ => exists m cm, block_mapping nearest self geo = Ok (m, cm)
-  end.
-Proof.
-  intros W W'.
-  destruct (gatm geo) eqn:Eg, (gatm self) eqn:Es;
-    try (apply (block_mapping_raises nearest Hn self geo W W'); split; congruence);
-    (destruct (block_mapping_ok nearest Hn self geo W W') as [m Hm]; [intros [A B]; congruence|eauto]).
 Qed.
 
 (** the "corresponding" atmosphere block *)
@@ -68,13 +56,15 @@ Lemma block_mapping_atm_l self geo m cm : wf self -> wf geo -> block_mapping nea
      exists sc, In sc (gcols self) /\
        (forall c', In c' (gcols self) -> (dist2 (ccentre col) (ccentre sc) <= dist2 (ccentre col) (ccentre c'))%Z) /\
        dget (cname col) cm = Ok (cname sc) /\
-       dget (block_name geo (l0name geo) (cname col)) m = Ok (block_name self (l0name self) (cname sc))).
+       dget (block_name geo (l0name geo) (cname col)) m = Ok (block_name self (l0name self) (cname sc))) /\
+  (gatm self = Atm1 -> gatm geo = Atm0 ->
+     dget (block_name geo (l0name geo) (atmcol geo)) m = Ok (block_name self (l0name self) (cname (first_col self)))).
 Proof.
-  intros W W' Hm. destruct (block_mapping_inv nearest Hn self geo m cm W W' Hm) as [Ecm [F G]]. subst cm. split.
+  intros W W' Hm. destruct (block_mapping_inv nearest Hn self geo m cm W W' Hm) as [Ecm [F G]]. subst cm. split; [|split].
   - intros Es b Ib. destruct (G b) as [v [Hv Dv]]; [rewrite (block_name_list_eq geo W'); apply in_or_app; left; exact Ib|].
     rewrite Dv. f_equal. unfold atm_blocks in Ib. destruct (gatm geo) eqn:Eg.
     + destruct Ib as [E|[]]. subst b. rewrite (map_block_atm0 nearest self geo W W' Eg), Es in Hv. inversion Hv; reflexivity.
-    + apply in_map_iff in Ib as [c [E Ic]]. subst b. rewrite (map_block_atm1 nearest self geo c W W' Ic), Es in Hv.
+    + apply in_map_iff in Ib as [c [E Ic]]. subst b. rewrite (map_block_atm1 nearest self geo c W W' Ic Eg), Es in Hv.
       inversion Hv; reflexivity.
     + destruct Ib.
   - intros Es col Ic Eg. destruct (closest_col_ok nearest Hn self col (cols_ne self W)) as [_ [Isc Mn]].
@@ -82,7 +72,10 @@ Proof.
     destruct (G (block_name geo (l0name geo) (cname col))) as [v [Hv Dv]].
     { rewrite (block_name_list_eq geo W'). apply in_or_app; left. unfold atm_blocks. rewrite Eg.
       apply in_map_iff. exists col. split; [reflexivity|exact Ic]. }
-    rewrite Dv. f_equal. rewrite (map_block_atm1 nearest self geo col W W' Ic), Es in Hv. inversion Hv; reflexivity.
+    rewrite Dv. f_equal. rewrite (map_block_atm1 nearest self geo col W W' Ic Eg), Es in Hv. inversion Hv; reflexivity.
+  - intros Es Eg. destruct (G (block_name geo (l0name geo) (atmcol geo))) as [v [Hv Dv]].
+    { rewrite (block_name_list_eq geo W'). apply in_or_app; left. unfold atm_blocks. rewrite Eg. left; reflexivity. }
+    rewrite Dv. f_equal. rewrite (map_block_atm0 nearest self geo W W' Eg), Es in Hv. inversion Hv; reflexivity.
 Qed.
 
 (** nearest column, nearest (first) layer, above-surface correction: the whole description of the
@@ -163,7 +156,7 @@ Proof.
   intros W NDc NDl I. rewrite (block_name_list_eq g W) in I. apply in_app_or in I as [I|I].
   - unfold atm_blocks in I. destruct (gatm g) eqn:Ea.
     + destruct I as [E|[]]. subst dest. rewrite (map_block_atm0 nearest g g W W Ea), Ea. reflexivity.
-    + apply in_map_iff in I as [c [E Ic]]. subst dest. rewrite (map_block_atm1 nearest g g c W W Ic), Ea.
+    + apply in_map_iff in I as [c [E Ic]]. subst dest. rewrite (map_block_atm1 nearest g g c W W Ic Ea), Ea.
       rewrite (near_col_self g c W NDc Ic). reflexivity.
     + destruct I.
   - apply ug_blocks_in in I as [lay [c [Il [Ic [Hb E]]]]]. subst dest.
@@ -178,7 +171,6 @@ Lemma block_mapping_self_id_l g : wf g -> NoDup (map ccentre (gcols g)) -> NoDup
              forall c, In c (gcols g) -> dget (cname c) cm = Ok (cname c).
 Proof.
   intros W NDc NDl.
-  assert (NC : ~ atm_class g g) by (intros [A B]; congruence).
   rewrite (block_mapping_unfold nearest Hn g g W W).
   rewrite (mapM_ok_map _ (fun b => (b, b))) by (intros; apply map_block_self; assumption).
   cbn [bind]. exists (CM nearest g g). split; [reflexivity|].
